@@ -437,6 +437,7 @@ func genWsJson(r *Rng, tier string, stat func(string)) []string {
 		stat("overlap-after-invalid")
 		stat("invalid")
 	}
+	out = append(out, "kind=rawwrite")
 	out = append(out, "kind=struct")
 	out = append(out, "kind=bytes")
 	return out
@@ -599,6 +600,58 @@ func runWsJson(kv map[string]string) string {
 		<-pa.done
 		<-pb.done
 		return fmt.Sprintf("readfailed=%v aok=%v bok=%v", e0 != nil, ea == nil && va["who"] == "A" && len(va["pad"]) == 40, eb == nil && vb["who"] == "B" && len(vb["pad"]) == 60)
+	case "rawwrite":
+		// values whose dynamic type is json.RawMessage go through the encoder like everything else: a nil one is the JSON value
+		// null, a malformed one is an encoding error (nothing may be sent), a valid one arrives as an equivalent document
+		c, s, _, err := newPair(0, 0, 0, 0)
+		if err != nil {
+			return "dialerr=" + errClass(err)
+		}
+		defer c.CloseNow()
+		defer s.CloseNow()
+		type rd struct {
+			typ websocket.MessageType
+			b   []byte
+			err error
+		}
+		got := make(chan rd, 8)
+		go func() {
+			for {
+				typ, b, err := s.Read(ctx)
+				got <- rd{typ, b, err}
+				if err != nil {
+					return
+				}
+			}
+		}()
+		e1 := wsjson.Write(ctx, c, json.RawMessage(nil))
+		e2 := wsjson.Write(ctx, c, json.RawMessage(`{"a":`))
+		e3 := wsjson.Write(ctx, c, json.RawMessage(`{"a" : [1, 2]}`))
+		e4 := wsjson.Write(ctx, c, map[string]json.RawMessage{"k": nil})
+		var docs []string
+		for i := 0; i < 3; i++ {
+			select {
+			case r := <-got:
+				if r.err != nil {
+					docs = append(docs, "readerr")
+				} else {
+					var v interface{}
+					ok := r.typ == websocket.MessageText && json.Unmarshal(r.b, &v) == nil
+					docs = append(docs, fmt.Sprintf("%v:%s", ok, canon(v)))
+				}
+			case <-time.After(3 * time.Second):
+				docs = append(docs, "missing")
+			}
+		}
+		extra := 0
+		select {
+		case r := <-got:
+			if r.err == nil {
+				extra = 1
+			}
+		case <-time.After(100 * time.Millisecond):
+		}
+		return fmt.Sprintf("nilraw=%v badraw=%v goodraw=%v nested=%v docs=%s extra=%d", e1 == nil, e2 != nil, e3 == nil, e4 == nil, hx(strings.Join(docs, "|")), extra)
 	case "struct", "bytes":
 		c, s, _, err := newPair(0, 0, 0, 0)
 		if err != nil {
